@@ -120,6 +120,12 @@ fn arch_of(name: &str) -> ZkStdLibArch {
         "poseidon_sha256" => ZkStdLibArch { sha2_256: true, ..base },
         "poseidon_secp256k1" => ZkStdLibArch { secp256k1: true, ..base },
         "poseidon_jubjub" => ZkStdLibArch { jubjub: true, ..base },
+        // the architecture of the aggregator's own unit test
+        "agg_test" => ZkStdLibArch { jubjub: true, sha2_256: true, nr_pow2range_cols: 4, ..base },
+        "poseidon_jubjub_p3" => ZkStdLibArch { jubjub: true, nr_pow2range_cols: 3, ..base },
+        "poseidon_p2" => ZkStdLibArch { nr_pow2range_cols: 2, ..base },
+        "poseidon_p3" => ZkStdLibArch { nr_pow2range_cols: 3, ..base },
+        "poseidon_p4" => ZkStdLibArch { nr_pow2range_cols: 4, ..base },
         _ => base,
     }
 }
@@ -187,7 +193,21 @@ fn run<const NB: usize>(sc: &J, out: &mut dyn Write) {
         (verdict(r), ev, trailing)
     };
     let (v_honest, vevents, trailing) = verify_bytes(&meta, &all_instances);
-    writeln!(out, "{}", json!({"ev":"Agg","arch":arch_name,"nb":NB,"inner":{"degree":degree,"permcols":permcols,"lookups":lookups,"valid":inner_ok},
+    // length of the vectors of the inner-product argument: accumulator RHS bases (second count in the proof) + fixed bases
+    let ipa_len = {
+        let mut off = 0usize;
+        let mut counts = vec![];
+        for e in vevents.iter().filter(|e| e.op == "read") {
+            if e.kind == "u32" && off + 4 <= meta.len() {
+                let b = [meta[off], meta[off + 1], meta[off + 2], meta[off + 3]];
+                counts.push(u32::from_le_bytes(b).min(u32::from_be_bytes(b)) as usize);
+            }
+            off += e.len;
+        }
+        let fixed = midnight_circuits::verifier::fixed_bases::<midnight_circuits::verifier::BlstrsEmulation>("inner_vk", inner_vk.vk()).len();
+        counts.get(1).map(|n| json!({"rhs":n,"fixed":fixed,"len":n + fixed,"exact_pow2":(n + fixed).is_power_of_two()}))
+    };
+    writeln!(out, "{}", json!({"ev":"Agg","arch":arch_name,"nb":NB,"ipa":ipa_len,"inner":{"degree":degree,"permcols":permcols,"lookups":lookups,"valid":inner_ok},
         "aggregate":agg_verdict,"verdict":v_honest,"trailing":trailing,"proof_len":meta.len(),
         "prover":tev("P", &pevents),"verifier":tev("V", &vevents)})).unwrap();
     if v_honest != "ok" {
